@@ -4,7 +4,7 @@ import json
 props = [json.loads(l) for l in open('/verif/properties.jsonl')]
 BASE = "Trusted: Coq 8.16.1 kernel (vm_compute used in Examples/_refuted witnesses); no axioms (Print Assumptions on every theorem of Properties/%s.v: closed under the global context); the hand-written Impl model (coq/Impl/*.v) of the Rust source, tied to /repo on every run by the correspondence check (harness/ built against /repo's working tree vs the model extracted with ExtrOcamlBasic only + ocaml/driver.ml); 64-bit target."
 CLAIMED = {
- "C06": ("proof", "Coq: ring-layout invariant over every insertion history (Proofs/CacheRing.v): a lookup returns the latest bytes, fresh key retrievable, regions disjoint, no panic; F2 (zero-length values) is a recorded known finding with a refutation witness. Model tied to the crate by an exhaustive small-capacity + random-history correspondence check incl. layout snapshots; independent oracle on the crate's output.", "C06"),
+ "C06": ("proof", "Coq: ring-layout invariant over every insertion history (Proofs/CacheRing.v): a lookup returns the latest bytes, fresh key retrievable, regions disjoint, no panic; the typed lookup get_value::<Transaction> is from_bytes of exactly those bytes (Proofs/CacheValue.v); F2 (zero-length values) is a recorded known finding with a refutation witness. Model tied to the crate by an exhaustive small-capacity + random-history correspondence check incl. layout snapshots; independent oracle on the crate's output.", "C06"),
  "C08": ("proof", "Coq theorems on the Rust-faithful model of scan_len/parse_len (Proofs/Len.v): accepts iff minimal encoding, counter, agreement of both decoders, saturation, no panic; correspondence check exhaustive on 1- and 3-byte forms, boundary-dense on 5/9-byte forms; independent oracle.", "C08"),
  "C11": ("proof", "Coq: for EVERY history the retrievable keys are the keys of a most-recent suffix of the successful insertions, evicted keys stay absent (Proofs/CacheFifo.v); correspondence check + oracle.", "C11"),
  "C12": ("proof", "Coq: total <= capacity, eviction only under pressure, recent entries kept (even with slack L-1), nothing evicted while everything fits (Proofs/CacheRing.v, under NoEmptyStored; F2 known finding); correspondence + oracle.", "C12"),
